@@ -144,7 +144,13 @@ func genValue(r *rng, u *mrogen.Universe, prog *mrogen.Program, ty mrogen.Ty, o 
 		return nil
 	}
 	if el, ok := ty.Elem(); ok {
-		n := []int{0, 1, 2, 2, 3, 3, 4, 5}[r.intn(8)]
+		// (lengths 4 and 5 only for the outermost collection: the size of an
+		// output grows with the product over the levels, and martian refuses
+		// to read outputs that do not fit its memory budget)
+		n := []int{0, 1, 2, 2, 3, 3}[r.intn(6)]
+		if top {
+			n = []int{0, 1, 2, 2, 3, 3, 4, 5}[r.intn(8)]
+		}
 		if top && len(o.ArrayLens) > 0 {
 			n = o.ArrayLens[r.intn(len(o.ArrayLens))]
 		}
